@@ -309,6 +309,14 @@ type wsEnd struct {
 	Pongs   [][]byte
 	Opens   int
 	parseErr error
+	Frames  []frameEv // data-frame callbacks (wsCfg.DataFrame)
+}
+
+// frameEv is one OnDataFrame callback.
+type frameEv struct {
+	Type    int
+	Fin     bool
+	Payload []byte
 }
 
 type wsCfg struct {
@@ -319,6 +327,7 @@ type wsCfg struct {
 	ReadLimit   int
 	FrameMax    int // Engine.MaxWebsocketFramePayloadSize
 	Async       bool
+	DataFrame   bool // an OnDataFrame handler is registered as well
 }
 
 func newWSEnd(e *env, cfg wsCfg) *wsEnd {
@@ -339,6 +348,11 @@ func newWSEnd(e *env, cfg wsCfg) *wsEnd {
 	u.OnMessage(func(c *websocket.Conn, mt websocket.MessageType, data []byte) {
 		w.Got = append(w.Got, Msg{int(mt), append([]byte(nil), data...)})
 	})
+	if cfg.DataFrame {
+		u.OnDataFrame(func(c *websocket.Conn, mt websocket.MessageType, fin bool, data []byte) {
+			w.Frames = append(w.Frames, frameEv{int(mt), fin, append([]byte(nil), data...)})
+		})
+	}
 	u.SetPongHandler(func(c *websocket.Conn, s string) { w.Pongs = append(w.Pongs, []byte(s)) })
 	u.OnClose(func(c *websocket.Conn, err error) { w.Closes++; w.CloseErr = err })
 	if cfg.Client {
